@@ -21,7 +21,8 @@ class Contract(object):
                raises=None, loops=None, pure=None, inline=(), callbacks=(),
                asserts='prove', serves=(), mode='vc', spec=None, ghost=None,
                abstract=False, returns=None, locals_=None, assumes=(), lemmas=(),
-               exc_ensures=None, opaque_preserves=(), relate=None, note=''):
+               exc_ensures=None, opaque_preserves=(), relate=None, note='', source=None,
+               in_module=None):
     self.name = name
     self.types = dict(types or {})
     self.requires = list(requires)
@@ -46,9 +47,13 @@ class Contract(object):
     self.opaque_preserves = list(opaque_preserves)
     self.relate = relate
     self.note = note
+    self.source = source        # ghost code (lemma): lives in the sidecar, not in /repo
+    self.in_module = in_module
 
   @property
   def module(self):
+    if self.in_module:
+      return self.in_module
     # longest prefix that is a module file
     parts = self.name.split('.')
     for i in range(len(parts), 0, -1):
@@ -59,6 +64,8 @@ class Contract(object):
 
   @property
   def local_name(self):
+    if self.source:
+      return self.name
     return self.name[len(self.module) + 1:]
 
 
